@@ -149,7 +149,7 @@ PROPS = {
     ),
     "C02": dict(
         kani=C05_FAMILY + C18_FAMILY + WRAPPERS + STD_C05 + STD_C18,
-        verus=["partition_tail", "dedupe_script"],
+        verus=["partition_tail", "dedupe_script", "partition_filters"],
         prefixes=["C02.", "C05.wrapper."],
         category="proof",
         trust=GHOST_FS_TRUST,
